@@ -106,6 +106,10 @@ func build(c seqCase) *fitmodel.Stream {
 				def.Fields = append(def.Fields, fitmodel.FieldDef{Num: mk.Num, Size: byte(fitmodel.MustBase(mk.Base).Size), Base: mk.Base})
 			} else if prof.Table().Msgs[it.Global] == nil {
 				def.Fields = append(def.Fields, fitmodel.FieldDef{Num: 1, Size: 4, Base: 0x86})
+				if it.Global%2 == 1 {
+					// unknown messages with a payload of more than 255 bytes
+					def.Fields = append(def.Fields, fitmodel.FieldDef{Num: 2, Size: 200, Base: 0x0D}, fitmodel.FieldDef{Num: 3, Size: 120, Base: 0x0D})
+				}
 			}
 			s.Recs = append(s.Recs, def)
 			slots[l] = &key{it.Global, it.BE}
@@ -123,6 +127,13 @@ func build(c seqCase) *fitmodel.Stream {
 			r.Raw = append(r.Raw, fitmodel.PutWireUint(uint64(tagValue(it.Tag, bt)), bt.Size, it.BE)...)
 		} else if prof.Table().Msgs[it.Global] == nil {
 			r.Raw = append(r.Raw, fitmodel.PutWireUint(uint64(it.Tag), 4, it.BE)...)
+			if it.Global%2 == 1 {
+				// filler that would look like records if it were parsed: data
+				// record headers of the low local types
+				for i := 0; i < 320; i++ {
+					r.Raw = append(r.Raw, byte(i%4))
+				}
+			}
 		}
 		s.Recs = append(s.Recs, r)
 	}
